@@ -7,7 +7,7 @@ CHECKS = [
     {"property_id": "C17", "level": "exploration",
      "text": "Hypothesis-generated mesh scenarios: a master and 1..8 (quick) / 1..12 (thorough) RF24Mesh / RF24MeshNoMaster nodes with "
              "drawn IDs, start offsets and MCU timing models join concurrently, run a drawn script of lookups / sends / writes / "
-             "check_connection / release / re-join / power loss one call at a time, then look IDs up concurrently in staggered rounds; "
+             "check_connection / release (also right after a long message) / re-join / power loss one call at a time, then look IDs up concurrently in staggered rounds; "
              "plus an enumerated sweep of a relay and its child asking -3..+3 ms apart; judged against the master's public table and "
              "all queues; with a loss word only no-exception / termination / valid-or-None are claimed.  Schedules are sampled: the "
              "weakest claim of the set",
@@ -27,17 +27,18 @@ CHECKS = [
      "text": "a mesh master on a simulated radio receives real MESH_ADDR_REQUEST / MESH_ADDR_RELEASE frames over the air (direct "
              "and relayed) and its replies are read from the air log; every event word to depth 3 (quick) / 4 (thorough) over "
              "requests, re-requests, releases by message and API and save/load cycles, for five pre-filled tables, plus a sweep of a "
-             "request through every one of the 155 relay addresses of level 1..3 with empty / nearly full / full parents, are "
-             "enumerated; Hypothesis draws ids 1..255 and histories to 14 events, and tables of 0..255 entries for persistence; the "
+             "request through every one of the 155 relay addresses of level 1..3 with empty / nearly full / full parents, and a "
+             "sweep of a second request arriving while the master waits for the NETWORK_ACK of a routed reply, are enumerated; Hypothesis draws ids 1..255 and histories to 14 events, and tables of 0..255 entries for persistence; the "
              "lease-table invariants of the statement are evaluated on dhcp_dict after every event",
      "design_ref": "4/C16", "note": SIM_NOTE + "; weak liveness (a request with a free slot is answered) is assumed as part of 'a released address becomes available again'",
      "technique": "model-based property testing: bounded-exhaustive event words + Hypothesis histories with lease-table invariants checked after every event"},
     {"property_id": "C14", "level": "exploration",
      "text": "every sender class (master, 0o1, other level-1, levels 2..4) x every target level (default, 0..4, -1, 5) x message "
              "length class is enumerated on a fixed populated topology; Hypothesis draws populated topologies of 6..20 nodes with "
-             "per-node allow_multicast / multicast_relay / overridden multicast_level and MCU timing models; after quiescence all "
+             "per-node allow_multicast / multicast_relay / overridden multicast_level / re-addressing from another level and MCU timing "
+             "models, pre-histories of routed writes, relays with full queues and relays on every level 0..4; after quiescence all "
              "queues are compared with the reference set of level members, the air log is checked for the level address, single "
-             "attempts, absence of ACK packets and relay re-broadcasts; schedules are sampled",
+             "attempts, absence of ACK packets, relay re-broadcasts and the set of levels a relayed message may reach; schedules are sampled",
      "design_ref": "4/C14", "note": SIM_NOTE + "; a receiver whose 3-level RX FIFO was overrun by an unacknowledged fragment burst is "
      "not judged for reception (counted); relay multiplicity scoped as in DESIGN 4/C14",
      "technique": "enumeration of sender-class x level + Hypothesis-generated populated topologies on the multi-node simulation, set-equality oracle over all queues and the air log"},
@@ -53,8 +54,9 @@ CHECKS = [
     {"property_id": "C05", "level": "exploration",
      "text": "Hypothesis-generated scenarios: a drawn parent-closed topology of 2..12 nodes (depth <= 4, full and routing-only "
              "nodes), every node running its own update() loop as a task on its own simulated radio with a drawn MCU timing model, "
-             "1..4 sequential messages (lengths 0..144, user types 0..127, write()/send(), fresh or explicit ids); after each message "
-             "the network is left to become quiescent and all queues are compared with what was sent; schedules are sampled "
+             "1..4 sequential messages (lengths 0..144, user types 0..127, write()/send(), fresh or explicit ids), per-node "
+             "multicast_level overrides; after each message the network is left to become quiescent, all queues are compared with "
+             "what was sent and every frame a router took from the air must have been forwarded; schedules are sampled "
              "(seeded timing models), so an interleaving that needs a particular sub-millisecond alignment can be missed",
      "design_ref": "4/C05", "note": SIM_NOTE + "; loss-free medium with first-locked-wins on overlap; one open known finding "
      "(pipelined fragments, DESIGN 5.3) is excluded by signature and counted",
@@ -65,19 +67,21 @@ CHECKS = [
              "(exhaustive, default bytes, multicast on and off, plus drawn distinct byte sets); every ordered (source, destination) "
              "pair is routed by real write()/update() calls - quick: first hop of all 609 180 pairs + full delivery for a sample; "
              "thorough: full delivery of all pairs for both multicast settings - each hop compared with the reference tree path, "
-             "address and receiver set; multicast() to every level from sampled senders; drawn byte sets on drawn subtrees",
+             "address and receiver set; multicast() to every level from sampled senders; drawn byte sets on drawn subtrees; re-keying every node after traffic",
      "design_ref": "4/C04", "note": SIM_NOTE + "; vlib/ref/netaddr.py (tree arithmetic, TMRh20 pipe_address) is the specification; "
      "IndexedMedium offers a packet only to chips whose registers show an enabled pipe on its address",
      "technique": "exhaustive enumeration of address pairs driven through the real API on a simulated population, differential against reference address arithmetic; Hypothesis for drawn byte sets/subtrees"},
     {"property_id": "C18", "level": "exploration",
-     "text": "Hypothesis-generated histories of MAC / name / show_pa_level / pa_level / hop_channel / channel= / with-block "
+     "text": "enumeration of name x show_pa_level x pa_level x way of tuning x container form (buffer+type, list, tuple, list of "
+             "bytearrays) x fill relative to the capacity (quick -1..+1, thorough -3..+2) x 1 or 3 advertisements of the same "
+             "container with hops in between; Hypothesis-generated histories of MAC / name / show_pa_level / pa_level / hop_channel / channel= / with-block "
              "re-entry and advertise() calls whose chunk lists are constructed around the capacity boundary; the W_TX_PAYLOAD bytes "
              "and RF_CH are read from the simulated chip and parsed by an independent bit-serial BLE link-layer reference "
              "(de-whitening with the channel implied by RF_CH, PDU header, length, AdvA, AD structures verbatim, CRC-24); "
              "len_available() and the ValueError boundary are compared with the arithmetic of the BLE packet layout",
      "design_ref": "4/C18", "note": "trusted base: vlib/ref/ble.py (written from the Core specification, reproduces the published "
      "channel-37 whitening sequence and the CRC test vector) and the chip model's SPI trace; the library's own receiver is not used as oracle",
-     "technique": "property-based testing: Hypothesis histories with an independent BLE reference decoder as oracle"},
+     "technique": "property-based testing: boundary enumeration + Hypothesis histories with an independent BLE reference decoder as oracle"},
     {"property_id": "C19", "level": "exploration",
      "text": "FakeBLE->FakeBLE round trips over the simulated air on all three channels for generated name/PA/service-data "
              "combinations, packets from the independent BLE encoder, every single and (thorough: every; quick: 1/8 of the) double "
@@ -90,8 +94,10 @@ CHECKS = [
      "text": "the validity predicate is compared with the reference on all 65536 values (exhaustive); a node of every role "
              "(routing-only, network, mesh node, unassigned mesh node, mesh master) and level 0..4 receives, through the simulated "
              "air, a bounded-exhaustive set of structured frames (256 types x length classes x destination x origin classes), "
-             "Hypothesis-generated payload sequences and a coverage-guided atheris/libFuzzer campaign (16 processes, empty and "
-             "seeded corpora) whose target contains the same oracle: update() returns normally within 3 s of virtual time, frames "
+             "an address request from every one of the 781 well-formed origin addresses to a master, mesh-master histories with full "
+             "parents, payload batches before one update(), Hypothesis-generated payload sequences and a coverage-guided atheris/libFuzzer campaign (16 processes, empty and "
+             "seeded corpora) whose target contains the same oracle: update() returns normally within 3 s of virtual time and (for "
+             "the enumerated and generated parts named in DESIGN 4b) within a deterministic budget of executed library lines, frames "
              "rejected by the reference predicate cause no queue growth and no transmission",
      "design_ref": "4/C15", "note": SIM_NOTE + "; exceptions are bucketed by (type, innermost library frame); a fuzz time budget "
      "running out is not a verdict",
@@ -101,25 +107,29 @@ CHECKS = [
              "arrival order, dequeue after every step or at the end) and for two senders with equal frame ids (every loss word x "
              "every interleaving); Hypothesis generates larger patterns (1..3 senders, 2..7 fragments, duplicates, bounded "
              "reordering, stray fragments, ordinary frames, dequeues) through three executors (fresh frame objects, one reused "
-             "frame object, over the simulated air into a node's update()); every frame handed to the application is compared "
+             "frame object, over the simulated air into a node's update()), completions the queue refuses followed by repeats, and "
+             "an atheris/libFuzzer campaign whose data provider decodes bytes into a delivery pattern; every frame handed to the application is compared "
              "with the set of messages actually sent and with the number of complete in-order presentations",
      "design_ref": "4/C06", "note": "oracle: history invariant computed from the reference fragmenter's output (vlib/ref/frag.py); "
-     "a sender never reuses a frame id for two different messages (outside the protocol, such cases are not judged)",
-     "technique": "fault-pattern enumeration + Hypothesis-generated delivery patterns with a history-invariant oracle"},
+     "a sender never reuses a frame id for two different messages to one destination (outside the protocol, such cases are not judged)",
+     "technique": "fault-pattern enumeration + Hypothesis-generated delivery patterns + coverage-guided fuzzing (atheris) with a history-invariant oracle"},
     {"property_id": "C11", "level": "exploration",
      "text": "Hypothesis-generated header field values / buffers compared with an independently written struct layout, and "
              "one real write() for every message length 0..144 (exhaustive over lengths, several contents/types/ids per length) "
-             "to a direct neighbour and through one router, the on-air frames captured from the simulated medium and compared "
+             "to a direct neighbour and through one router, and after every history of <= 3 (quick) / 5 (thorough) sender "
+             "configuration calls (fragmentation on/off, max_message_length) at ten boundary lengths, the on-air frames captured from the simulated medium and compared "
              "field by field with the reference fragmenter and fed to a reference TMRh20-style reassembler",
      "design_ref": "4/C11", "note": SIM_NOTE + "; vlib/ref/frag.py is the specification of the TMRh20 fragment format",
      "technique": "property-based testing: round-trip + differential against reference fragmenter/reassembler on captured on-air frames"},
     {"property_id": "C09", "level": "exploration",
-     "text": "Hypothesis-generated interleavings of 3..12 with-blocks of 2..3 objects (RF24, FakeBLE, RF24Network, RF24Mesh in any "
+     "text": "every ordered pair of classes x one (quick) / two (thorough) configuration calls of the first x one call of the second "
+             "from per-class alphabets (incl. print_pipes()/print_details(), which re-read the shadow registers), each object "
+             "re-entered afterwards, enumerated; Hypothesis-generated interleavings of 3..12 with-blocks of 2..3 objects (RF24, FakeBLE, RF24Network, RF24Mesh in any "
              "mix) sharing one simulated radio, each block running drawn configuration calls; for every re-entry the chip's "
              "complete configuration register file is compared with the snapshot taken at the end of that object's previous "
-             "block, and PWR_UP/CE are checked after every __exit__; sampled histories only",
+             "block, and PWR_UP/CE are checked after every __exit__; exhaustive only for the stated alphabets",
      "design_ref": "4/C09", "note": SIM_NOTE + "; the oracle is a relation between two chip snapshots, no model of the individual setters is needed",
-     "technique": "property-based testing: Hypothesis-generated multi-object with-block interleavings, metamorphic snapshot-equality oracle"},
+     "technique": "property-based testing: enumerated class-pair/call combinations + Hypothesis-generated multi-object with-block interleavings, metamorphic snapshot-equality oracle"},
     {"property_id": "C10", "level": "exploration",
      "text": "Hypothesis op lists mixing traffic (peer sends to any pipe, write/CE/send to listening, absent or ACK-payload peers, "
              "load_ack, role toggles) with every accessor in all its argument forms, in dynamic / static per-pipe / mixed payload "
@@ -136,7 +146,8 @@ CHECKS = [
     {"property_id": "C01", "level": "exploration",
      "text": "Hypothesis-generated link configurations x payload lists, executed on two simulated radios through the public API; "
              "the received sequence, pipe, any(), the W_TX_PAYLOAD bytes on the SPI bus and the caller's buffers are compared "
-             "with the documented padding/truncation/rejection rule; sampled inputs, no exhaustiveness claimed",
+             "with the documented padding/truncation/rejection rule; plus ping-pong exchanges (both ends switch roles) and long "
+             "lists (4..12 payloads) with a receiver task draining the FIFO concurrently; sampled inputs, no exhaustiveness claimed",
      "design_ref": "4/C01", "note": SIM_NOTE,
      "technique": "property-based testing (Hypothesis composite generator) with a documented-rule oracle on a simulated link"},
     {"property_id": "C03", "level": "exploration",
@@ -163,7 +174,8 @@ CHECKS = [
      "design_ref": "4/C02", "note": SIM_NOTE,
      "technique": "fault-sequence enumeration + Hypothesis-generated call histories against the simulator's ground-truth air log"},
     {"property_id": "C12", "level": "exploration",
-     "text": "model-based: every op word to the stated depth over a 9-symbol alphabet (exhaustive), Hypothesis op lists to length "
+     "text": "model-based: every op word to the stated depth over the op alphabet (enqueue of five frames incl. equal-key variants, a complete fragmented message, dequeue, peek, "
+             "capacity changes; exhaustive), Hypothesis op lists to length "
              "40, and histories produced by a Hypothesis rule-based state machine whose rules step the reference queue (state-aware "
              "preconditions), all run in lock-step against an independent reference queue; absence beyond the explored histories "
              "is not shown",
